@@ -640,6 +640,10 @@ func writeNodes(w io.Writer, level int, nodes []Node, indent bool) error {
 
 func shouldAlwaysBreakAfter(node Node) bool {
 	if el, isElement := node.(Element); isElement {
+		if !el.IsBlockElement() {
+			// The generator renders the line break as a space, e.g. after <BR/>.
+			return false
+		}
 		return strings.EqualFold(el.Name, "br") || strings.EqualFold(el.Name, "hr")
 	}
 	return false
